@@ -435,6 +435,82 @@ def wide_cases(rng, n, kind):
     return out
 
 
+# ---------- stacked negations: 'not not phi' / 'not not not phi' at every position of a formula ----------
+def stack_negations(rng, f, kind, p=0.3):
+    """f with 2-4 negations stacked on some of its subformulas (anywhere a formula of the language may stand: under a quantifier,
+    under and between temporal operators, over derived operators, over constants, over another connective)"""
+    t = f[0]
+    if t in ('true', 'false', 'ap'):
+        g = f
+    elif t in ('A', 'E') and kind in ('CTL', 'LTL'):
+        o = f[1]
+        if kind == 'LTL':
+            return (t, stack_negations(rng, o, 'path', p))
+        g = (t, (o[0],) + tuple(stack_negations(rng, x, kind, p) for x in o[1:]))
+    else:
+        g = (t,) + tuple(stack_negations(rng, x, kind, p) for x in f[1:])
+    if rng.random() < p:
+        for _ in range(rng.choice([2, 2, 2, 2, 3, 4])):
+            g = ('not', g)
+    return g
+
+
+def stacked_negation_cases(rng, n, kind):
+    """(structure, formula): random formulas of the language (depth 1-3) in which negations are stacked at random positions"""
+    out = []
+    while len(out) < n:
+        d = rng.randint(1, 3)
+        if kind == 'CTL':
+            f = gen_until(rng, lambda: rand_ctl(rng, d), has_temporal)
+        elif kind == 'LTL':
+            f = ('A', gen_until(rng, lambda: rand_path(rng, d), has_temporal))
+        else:
+            f = gen_until(rng, lambda: rand_ctls_state(rng, d), has_temporal)
+        if f is None:
+            continue
+        g = stack_negations(rng, f, kind, rng.choice([0.2, 0.35, 0.5]))
+        if g == f or sum(1 for h in subformulas(g) if h[0] in TEMPORAL) > 5:
+            continue
+        out.append((rand_kripke(rng, rng.randint(1, 4)), g))
+    return out
+
+
+# ---------- atom names that are concatenations / joins / prefixes of one another ----------
+JOIN_FAMILIES = [('p', 'q', 'pq'), ('a', 'b', 'ab', 'ba'), ('p', 'q', 'p q'), ('p', 'q', 'p,q'), ('p', 'q', "p', 'q"), ('x', 'xx', 'xxx'),
+                 ('p', 'q', 'p|q'), ('p', 'q', 'pq', 'qp', ''), ('p', 'P', 'q', 'Q'), ('1', '2', '12', '21')]
+
+
+def joined_name_cases(rng, n, kind):
+    """(structure, formula) over atom names of which one is the concatenation (or a ' ' / ',' / ', ' join, or a repetition, or a
+    case variant) of others: {p, q} and {pq} are DIFFERENT label sets, and most structures here contain a state of each kind
+    with different futures.  Object channel only (the names need not be writable in the concrete syntax)."""
+    out = []
+    while len(out) < n:
+        fam = rng.choice(JOIN_FAMILIES)
+        parts, joined = fam[:2], fam[2]
+        m = rng.randint(2, 4)
+        kd = rand_kripke(rng, m, aps=fam)
+        if rng.random() < 0.8:
+            a, b = rng.sample(range(m), 2)
+            kd['L'][a], kd['L'][b] = sorted(parts), [joined]
+            if rng.random() < 0.5:
+                kd['R'] = [e for e in kd['R'] if e[0] not in (a, b)] + [(a, a), (b, b)]
+        d = rng.randint(1, 2)
+        if kind == 'CTL':
+            f = gen_until(rng, lambda: rand_ctl(rng, d, aps=fam), has_temporal)
+        elif kind == 'LTL':
+            f = ('A', gen_until(rng, lambda: rand_path(rng, d, aps=fam), has_temporal))
+        else:
+            f = gen_until(rng, lambda: rand_ctls_state(rng, d + 1, aps=fam), has_temporal)
+        if rng.random() < 0.3:
+            g = rng.choice([('ap', joined), ('not', ('ap', joined)), ('ap', parts[0]), ('X', ('ap', joined)), ('F', ('not', ('ap', parts[1]))), ('G', ('ap', parts[0]))])
+            f = ('A', g) if kind != 'CTL' or g[0] in ('X', 'F', 'G') else g
+            if kind == 'CTL' and not is_ctl_state(f):
+                continue
+        out.append((kd, f))
+    return out
+
+
 # ---------- exotic atom names: the faithful (printed-form) models of coq/Model/Memo.v ----------
 def run_print_stream(R, pid, logic, nform, kf_id='KF-print-a'):
     """formulas whose ATOM NAMES collide with printed subformulas / reserved words (known finding
